@@ -968,7 +968,11 @@ example : feed ["a", "b", "c"] 2 0 10 = ["a", "b", "c", "a", "b", "c"] ∧ feed 
     feedCount 3 2 0 10 = 6 ∧ feedCount 3 0 4 10 = 4 ∧ feedCount 3 2 4 10 = 4 ∧ feedCount 3 0 0 5 = 5 ∧
     ringPeriod [6, 4, 2] = 6 ∧ ringPeriod [0] = 1 := by decide
 
-example : decodeAmmo exReqs exScs ≠ .err "x" ∧ (3 : Nat) ≠ 0 := by decide
+-- C15_feed: hypotheses hold (the ring of `exScs.take 2` has 5 entries); one pass with a limit of 7 gives 5, two passes 7
+example : (decodeAmmo exReqs (exScs.take 2)).bind (fun ring => .ok ((feed ring 1 7 20).map (String.ofList ·.name), ring.length)) =
+      .ok (["s1", "s1", "s1", "s2", "s2"], 5) ∧
+    (decodeAmmo exReqs (exScs.take 2)).bind (fun ring => .ok ((feed ring 2 7 20).map (String.ofList ·.name))) =
+      .ok ["s1", "s1", "s1", "s2", "s2", "s1", "s1"] := by decide
 
 end Examples
 
